@@ -472,3 +472,20 @@ type MediumSpec struct {
 }
 
 var _ = mh.SHA2_256
+
+
+// LongBlocks replaces the blocks of spec by 70-140 small ones: an archive longer than the 4 KiB
+// buffers readers use, with more sections than any small constant.
+func LongBlocks(r *Rng, spec *ImageSpec) {
+	spec.Blocks = spec.Blocks[:0]
+	for i, n := 0, r.Range(70, 140); i < n; i++ {
+		spec.Blocks = append(spec.Blocks, BlkSpec{Kind: Pick(r, []string{"raw", "cbor", "v0", "sha1", "t20"}), Seed: uint64(200 + i), Size: r.Range(0, 60)})
+	}
+	if r.Chance(1, 3) {
+		// and a duplicate of an early block late in the archive
+		spec.Blocks = append(spec.Blocks, spec.Blocks[r.Intn(10)])
+	}
+	if len(spec.Roots) == 0 {
+		spec.Roots = []BlkSpec{spec.Blocks[0]}
+	}
+}
